@@ -685,7 +685,7 @@ pub fn contract_named_bits<C: Ctx>(cx: &mut C) {
 //  native bounded stand-in only.)
 
 #[cfg(not(kani))]
-pub use crate::intermediate::encoding_rules::per_visible::verif_hook::{hook_compare_optional, hook_fold_constraint_set, hook_intersect_single_and_range, hook_union_optional, hook_union_single_and_range};
+pub use crate::intermediate::encoding_rules::per_visible::verif_hook::{hook_compare_optional, hook_default_unsigned, hook_fold_constraint_set, hook_range_from_constraint, hook_range_from_element, hook_intersect_single_and_range, hook_union_optional, hook_union_single_and_range};
 pub fn hook_needs_unnesting(ty: &ASN1Type) -> bool { crate::generator::rasn::Rasn::needs_unnesting(ty) }
 
 #[cfg(not(kani))]
